@@ -267,7 +267,9 @@ func (r *Resolver) ResolveUnionEdges(ctx context.Context, req *Request, edges []
 	for _, evaluation := range evaluations {
 		pool.Go(func() error {
 			res, err := r.ResolveEdge(ctx, req, evaluation.edge, visited)
-			if err == nil && ctx.Err() == nil {
+			// A negative answer computed under the request-wide visited filter depends on which
+			// usersets earlier branches already marked visited; it is not the edge's answer in general.
+			if err == nil && ctx.Err() == nil && (visited == nil || res.GetAllowed()) {
 				entry := &ResponseCacheEntry{Res: res, LastModified: time.Now()}
 				r.cache.Set(evaluation.id, entry, r.cacheTTL)
 			}
